@@ -68,6 +68,8 @@ def gen_div(r, nd=None, solve=False):
     if solve:
         nxg = [r.randint(2, 6 if nd == 2 else 4) for _ in range(nd)]
     w = [r.choice(WIDTHS_P2 + ([] if solve else WIDTHS_ANY)) for _ in range(nd)]
+    if nd == 3:      # every 3-D case has three different widths (a width used for the wrong direction must show)
+        w = r.sample(WIDTHS_P2 + ([] if solve else WIDTHS_ANY), 3)
     hs, sm, mins, fulls = gen_smooth(r)
     if solve:
         sm = False
@@ -103,6 +105,8 @@ def gen_atimes(r, nd=None):
     nxp = [r.choice([2, 2, 3, r.randint(2, hi)]) for _ in range(nd)]
     exact = r.random() < 0.8
     w = [r.choice(WIDTHS_P2 if exact else WIDTHS_ANY) for _ in range(nd)]
+    if nd == 3:
+        w = r.sample(WIDTHS_P2 if exact else WIDTHS_ANY, 3)
     nt = 1
     for n in nxp:
         nt *= n
@@ -598,11 +602,13 @@ def check(run):
             run.dist("solve:not-converged-in-%d" % itmax)
     run.sample({"solve_case": slines[0][:300], "impl": impl[pos - len(slines)][:300]})
 
-    # ---------------- degenerate shapes: one point in a periodic dimension (own process: the code indexes outside its arrays)
+    # ---------------- degenerate shapes: one point in a periodic dimension (own process): the grid must be refused
+    # with an input error (constructor) and integrate() must not iterate; the model refuses the same shapes
     gcases = [gen_degenerate(r) for _ in range(12)]
     glines = [atimes_line(c, c["x"]) for c in gcases]
     for c, l in zip(gcases, glines):
         rcg, go, eg = V.run_lines(unit, [l])
+        rcm, gm, em = V.run_lines(model, [l])
         run.count(l, True)
         run.dist("atimes:degenerate")
         if len(go) != 1:
@@ -612,6 +618,15 @@ def check(run):
             run.violation("atimes:out-of-bounds:single-point-periodic-dimension",
                           "atimes indexes its arrays outside the grid when a periodic dimension has a single point: %s [case: %s]" % (go[0].split("|", 1)[1], l[:300]),
                           {"kind": "unit", "case": l, "impl": go[0]})
+        elif not go[0].startswith("REFUSED"):
+            run.violation("atimes:single-point-periodic-dimension-accepted", "a PMF grid with one point in a periodic dimension was neither refused nor caught indexing outside: %s [case: %s]" % (go[0][:200], l[:300]),
+                          {"kind": "unit", "case": l, "impl": go[0]})
+        else:
+            if "input" not in go[0] or "iter=0" not in go[0] or "data_untouched=1" not in go[0] or "err=-1" not in go[0]:
+                run.violation("integrate:refused-grid-touched", "a refused grid must give an input error and leave everything untouched: %s [case: %s]" % (go[0], l[:300]),
+                              {"kind": "unit", "case": l, "impl": go[0]})
+            if not (gm and gm[0].startswith("REFUSED")):
+                run.mismatch("refused-shape", l, go[0], gm[0] if gm else None)
 
     # ---------------- numerical experiment: second-order convergence to a smooth surface (up to a constant)
     conv_experiment(run, unit, r, quick)
@@ -677,6 +692,8 @@ def gen_e2e(r, k):
         w = r.choice([0.5, 0.25, 1.0])
         n = r.randint(2, 4) if nd < 3 else r.randint(2, 3)
         lo = r.choice([0.0, -1.0, 0.5])
+        if nd == 3:
+            w = [0.5, 0.25, 1.0][(d + k) % 3]      # three different widths in every 3-D scenario
         vars_.append({"per": per, "w": w, "n": n, "lo": lo, "hi": lo + n * w})
     steps = []
     for _ in range(r.randint(8, 30)):
@@ -715,8 +732,15 @@ def e2e(run, r, quick):
     exe = V.build_prog("vsim", ["harness/vsim_main.cpp"])
     d = V.scratch("C16")
     ncase = 8 if quick else 80
-    for k in range(ncase):
+    for k in range(ncase + 1):
         c = gen_e2e(r, k)
+        degenerate = (k == ncase)
+        if degenerate:
+            # a periodic variable whose single bin spans its period, in 2-D: the PMF grid has one point along it;
+            # the bias must be refused with an input error (integration is on by default)
+            c["nd"] = 2
+            c["vars"] = [{"per": True, "w": 2.0, "n": 1, "lo": 0.0, "hi": 2.0}, {"per": False, "w": 0.5, "n": 3, "lo": -1.0, "hi": 0.5}]
+            c["steps"] = [([0.25 + 0.5 * (i % 3), -0.75 + 0.5 * (i % 3)], [1.0 + i, -2.0]) for i in range(6)]
         sc = os.path.join(d, c["id"] + ".scn")
         for ext in (".pmf", ".grad", ".count"):
             try:
@@ -729,6 +753,14 @@ def e2e(run, r, quick):
         rep = {"kind": "e2e", "scenario": e2e_scenario(c)}
         run.count("e2e:" + json.dumps(c, sort_keys=True), True)
         run.dist("e2e:nd=%d,per=%s" % (c["nd"], "".join(str(int(v["per"])) for v in c["vars"])))
+        if degenerate:
+            run.dist("e2e:single-point-periodic-dimension")
+            if "CONFIG err=ok" in o:
+                run.violation("e2e:single-point-periodic-dimension-accepted", "abf on 2 variables with integration and a periodic variable whose width is its period was accepted: "
+                              "the Poisson solver indexes outside its arrays on that grid", rep)
+            elif "CONFIG err=input" not in o:
+                run.violation("e2e:run", "unexpected outcome for the single-bin periodic configuration: %s" % o[-300:], rep)
+            continue
         if rc != 0 or "POSTRUN err=ok" not in o or "CONFIG err=ok" not in o:
             run.violation("e2e:run", "the ABF scenario did not run to the end (rc=%d): %s" % (rc, (o + e)[-300:]), rep)
             continue
